@@ -18,6 +18,7 @@ import Distill.Model.Pagination
 import Distill.Model.PageGroups
 import Distill.Model.PathPattern
 import Distill.Model.Filters
+import Distill.Model.TextRender
 namespace Distill.Slices
 open Distill Distill.Proto
 
@@ -431,8 +432,39 @@ def filtersSlice : P String := do
     let final := match tr.getLast? with | some (l, _) => l | none => init
     pure s!"{" | ".intercalate stages} | wc={Flt.countWordsInContent final} c={",".intercalate ((Flt.contentMembers final).map toString)} t={",".intercalate ((Flt.titleMembers final).map toString)}"
 
+/-- `textrender tree atoms nIds id* nTbl (value abs absSet)* title textOnly` → what
+`Text.GenerateOutput(textOnly)` returns for the window `ids` of the converter's tree; `P` when the
+Go code would dereference nil -/
+def textrenderSlice : P String := do
+  let t ← node
+  let A ← atomsP
+  let n ← nat
+  let ids ← many n nat
+  let m ← nat
+  let tbl ← many m (do let v ← str; let a ← str; let b ← str; pure (v, a, b))
+  let abs : String → String := fun v => match tbl.find? (fun e => e.1 == v) with | some e => e.2.1 | none => v
+  let absSet : String → String := fun v => match tbl.find? (fun e => e.1 == v) with | some e => e.2.2 | none => v
+  let title ← bool
+  let textOnly ← bool
+  match textOutput A abs absSet title textOnly ids t with
+  | none => pure "P"
+  | some s => pure (hex (String.ofList s))
+
+def outElP : P OutEl := do
+  let c ← bool; let h ← str; let t ← str
+  pure { content := c, html := h.toList, text := t.toList }
+
+/-- `docoutput textOnly n (content html text)*` → `Document.GenerateOutput(textOnly)` -/
+def docoutputSlice : P String := do
+  let textOnly ← bool
+  let n ← nat
+  let es ← many n outElP
+  pure (hex (String.ofList (docOutput textOnly es)))
+
 def dispatch (slice : String) : Option (P String) :=
   match slice with
+  | "textrender" => some textrenderSlice
+  | "docoutput" => some docoutputSlice
   | "docfilters" => some docfilters
   | "tableclass" => some tableclass
   | "rootdomain" => some rootdomain
